@@ -156,6 +156,13 @@ func (l *LastVoteproofsHandler) Set(vp base.Voteproof) bool {
 	switch vp.Point().Stage() { //nolint:exhaustive //...
 	case base.StageINIT:
 		l.last.ivp = vp.(base.INITVoteproof) //nolint:forcetypeassert //...
+
+		// NOTE new INIT voteproof, which is not after the ACCEPT voteproof, is
+		// the suffrage confirm voteproof of the previous round; the old ACCEPT
+		// voteproof should not be the cap of last voteproofs.
+		if l.last.avp != nil && l.last.avp.Point().Point.Compare(vp.Point().Point) >= 0 {
+			l.last.avp = nil
+		}
 	case base.StageACCEPT:
 		l.last.avp = vp.(base.ACCEPTVoteproof) //nolint:forcetypeassert //...
 	default:
